@@ -79,10 +79,20 @@ def float_op(proc: str, x: float, p: Dict[str, Any], ctx: Dict[str, Any], log: l
     if proc == "VTwo":
         log.append(("VTwo", {"factor": p["factor"], "addend": p["addend"]}))
         return x * p["factor"] + p["addend"]
+    if proc == "VKwMul":
+        log.append(("VKwMul", {"factor": p["factor"]}))
+        return x * p["factor"]
+    if proc == "VKwTwo":
+        log.append(("VKwTwo", {"factor": p["factor"], "addend": p["addend"]}))
+        return x * p["factor"] + p["addend"]
     if proc == "VCtxWrite":
         log.append(("VCtxWrite", {}))
         ctx["a"] = x + 0.25
         return x + 1.0
+    if proc == "VNestWrite":
+        log.append(("VNestWrite", {"nest": p["nest"]}))
+        ctx["nest"] = p["nest"] if p["nest"] is not None else {"alpha": 1, "limits": {"lo": 0, "hi": 9}}
+        return x
     if proc == "VBadWrite":
         log.append(("VBadWrite", {}))
         raise Fail("KeyError", "undeclared-write")  # write to an undeclared key
@@ -98,6 +108,9 @@ def float_op(proc: str, x: float, p: Dict[str, Any], ctx: Dict[str, Any], log: l
     if proc == "VFail":
         log.append(("VFail", {}))
         raise Fail("ValueError")
+    if proc == "VFailEmpty":
+        log.append(("VFailEmpty", {}))
+        raise Fail("RuntimeError")
     if proc == "VFailIf":
         log.append(("VFailIf", {"a": p["a"]}))
         if p["a"] == 666.0:
@@ -112,6 +125,12 @@ def probe_fn(proc: str, x: float, p: Dict[str, Any], log: list) -> Any:
         return x
     if proc == "VGainProbe":
         log.append(("VGainProbe", {"gain": p["gain"]}))
+        return x * p["gain"]
+    if proc == "VEchoProbe":
+        log.append(("VEchoProbe", {}))
+        return ("F", x + 1.0)
+    if proc == "VKwGainProbe":
+        log.append(("VKwGainProbe", {"gain": p["gain"]}))
         return x * p["gain"]
     if proc == "VFactorProbe":
         log.append(("VFactorProbe", {"factor": p["factor"]}))
